@@ -26,7 +26,7 @@ def _mc(ctx, module, cfg, env, timeout=1500):
     ctx.transitions += st[0]
     ctx.mc_runs.append({"module": module, "cfg": cfg, "generated": st[0], "distinct": st[1], "wall_s": round(dt, 1),
                         "invariants": ["PointwiseOK", "OnePull", "ResumeAt", "ExhExact", "SilentAfter", "SrcFrames",
-                                       "CollectLen", "TakeN", "Interleaved"],
+                                       "CollectLen", "TakeN", "Interleaved", "IterNth"],
                         "assumes": ["NativeOK", "NonVacuous"]})
     kit.log("[mc] %s %s: %d generated, %d distinct, %.1fs" % (module, cfg, st[0], st[1], dt))
     return out
@@ -38,7 +38,11 @@ def _vacuity(stim):
             '"consumer":"ue"', '"consumer":"il"', '"consumer":"lift"', '"consumer":"il_clone"', '"consumer":"ue_clone"',
             '"consumer":"take_clone"', '"ev":"clone"', '"fmt":"i32"', '"fmt":"i64"', '"byref":true', '"k":"byref"', '"k":"srcs"',
             # statically typed receiver chains (every stimulus names its depth), the far end of delay's range
-            '"st":0', '"st":1', '"st":2', '"k":"delaymax"']
+            '"st":0', '"st":1', '"st":2', '"k":"delaymax"',
+            # programs of Iterator methods on the consumers
+            '"ev":"drive"', '"op":"nth"', '"op":"skip"', '"op":"step_by"', '"op":"hint"', '"op":"count"', '"op":"last"',
+            '"op":"fold"', '"op":"for_each"', '"op":"vec"', '"op":"find"', '"op":"position"', '"op":"any"', '"op":"all"',
+            '"op":"drain"']
     seen = set()
     with open(stim) as f:
         for line in f:
@@ -80,14 +84,17 @@ def pipeline(ctx, replay=None, prop="all"):
         rnd = os.path.join(ctx.work, "signal_rand.ndjson")
         ctx.harness(hx, ["gen", str(ctx.seed), tier, rnd])
         stim_files = [("tlc", stim), ("random", rnd)]
-    for name, sf in stim_files:
-        tr = os.path.join(ctx.work, "signal_trace_%s.ndjson" % name)
-        rej += ctx.run_stimuli(hx, sf, tr, "signal")
+    # both build profiles (the specification expects the same in each: Trace_Signals header)
+    for name, prof, hxp, sf in kit.profile_runs(ctx, "hx_signal", stim_files, replay, keep_quick=800):
+        tr = os.path.join(ctx.work, "signal_trace_%s_%s.ndjson" % (name, prof))
+        r = ctx.run_stimuli(hxp, sf, tr, "signal")
         ctx.count_distinct(tr)
         # random executions are deeper (slower per event): smaller pieces, more JVMs
         max_lines = 3000 if name == "random" else (12000 if tier == "quick" else 40000)
         res = ctx.validate("Trace_Signals", tr, comp="signal", max_lines=max_lines, jobs=8, env={"SIG_PROP": prop})
-        rej += res["rejected"]
+        for x in r + res["rejected"] + res["heap"]:
+            x["profile"] = prof
+        rej += r + res["rejected"]
         heap += res["heap"]
         os.remove(tr)
     return rej, heap
@@ -113,6 +120,13 @@ ASSUME_COMMON = [
     "until_exhausted / into_interleaved_samples / by_ref are called on the concrete type for 1-level stacks; a bare source "
     "inside the static region has no pull counter (its frames are judged, its pulls are not); static stacks are not cloned",
     "delay counts: 0..7 and usize::MAX - {0,1,2} (`delaymax`: more silence than any execution observes)",
+    "the iterators take / until_exhausted / interleaved samples are driven through `next` and through the provided Iterator "
+    "methods nth, size_hint, count, last, fold, for_each, collect, find / position / any / all (counting predicates), "
+    "ExactSizeIterator::len, and the std adaptors skip / step_by, each judged as the corresponding number of `next` calls "
+    "(min / max / sum / comparison methods and the unstable ones are not called); on boxed terms only (a generic impl cannot "
+    "be specialised per signal type); nth(1), nth(2) from every position on the model",
+    "both build profiles of the harness are executed (release: replay and random stimuli in full, enumerated ones thinned "
+    "in the quick tier); the expected outcome is the same in both",
 ]
 
 
@@ -125,12 +139,32 @@ def c04(ctx, replay):
     ctx.add_rejections(rej)
 
 
+def _is_bus(replay):
+    with open(replay) as f:
+        return '"comp":"bus"' in f.readline().replace(" ", "")
+
+
 def c05(ctx, replay):
     ctx.assumptions += ASSUME_COMMON + [
         "until_exhausted / lift / interleaved consumers are only applied to terms with at least one finite source",
         "gen, gen_mut and equilibrium never report exhaustion (by design; not demanded)",
+        "exhaustion reporting of bus outputs (dasp_signal::bus, a Signal over a shared finite source): C13's pipeline "
+        "(spec/Bus.tla, harness/hx_stream; its bounds) is run with IOEnv.BUS_PROP=C05, i.e. Trace_Bus.tla rejects only on "
+        "its conjunct `is_exhausted = nothing pending for THIS output and the source has ended`",
     ]
-    rej, _ = pipeline(ctx, replay, prop="C05")
+    rej = []
+    if not replay or not _is_bus(replay):
+        rej += pipeline(ctx, replay, prop="C05")[0]
+    if not replay or _is_bus(replay):
+        from props import stream
+        # debug build only (C13 runs the bus in both profiles): ctx.light makes kit.profile_runs leave the release
+        # build out; a value larger than any stimuli file thins nothing
+        light = getattr(ctx, "light", 0)
+        ctx.light = light or 10 ** 9
+        try:
+            rej += stream.pipeline(ctx, "bus", replay, env={"BUS_PROP": "C05"})[0]
+        finally:
+            ctx.light = light
     ctx.add_rejections(rej)
 
 
